@@ -26,6 +26,12 @@ CLAIMED = {
                      "order, in a new list, input untouched; a result goes when either side fails.",
                 note="filter_* use the callee only through an abstract contract kept(o, all arguments) (modular); TransformDict.transform is an assumed contract "
                      "(identity on X->X, else uninterpreted); np.mean uninterpreted; monotonicity in the relaxed (mean) bounds and 2-D objects not covered.", ref="5/C10"),
+    "C01": dict(text="get_object_results (geometry path) is verified for all list lengths, labels, policies, matching modes and radius lists: both greedy "
+                     "loops carry invariants (working lists are order-preserving sub-lists of the inputs, score tables track them through pop/np.delete, "
+                     "results pair distinct input objects); postconditions from the statement: estimates/ground truths from the input, each at most once, "
+                     "every estimate exactly once outside FP-validation, unpaired dropped in FP-validation incl. no ground truth, inputs untouched, no exception.",
+                note="numpy table operations are assumed contracts; _get_score_table and the result constructor are cut at contracts (pair validity is the "
+                     "abstract predicate the table encodes); 3-D objects; inputs are sets (pairwise distinct objects).", ref="5/C01"),
 }
 NA_REASON = "check not built yet in this session (planned in DESIGN.md section 5); not claimed"
 ALL = [f"C{n:02d}" for n in range(1, 21)]
